@@ -138,7 +138,8 @@ def order_tokens(tokens: list):
         else:
             n_operators += 1 if t.type == TokenType.Op1 else 2
 
-            while operators:
+            # a prefix (unary) operator has no left operand: it must not flush pending operators
+            while operators and t.type != TokenType.Op1:
                 if t.priority <= operators[-1].priority:
                     operands.append(operators.pop())
                 else:
